@@ -40,8 +40,18 @@ def gen_case(rng, cfg, idx):
             other = rng.choice(leaves + shared + [None])
             y = B.R(other) if other else round(rng.uniform(0.5, 1.5), 2)
             n = b.call(rng.choice(["multiply", "add", "subtract"]), [B.R(src), y], sp=rng.choice(["mg", "op"]), prefix="y")
-        elif c < 0.7:
+        elif c < 0.6:
             n = b.call(rng.choice(["sin", "tanh", "square", "exp"]), [B.R(src)], sp="mg", prefix="y")
+        elif c < 0.75:
+            # operations with per-operation backward state and several tensor operands (einsum's operand cache, n-ary sequences)
+            same = [t for t in leaves + shared if np.shape(b.val(t)) == np.shape(b.val(src))]
+            o2 = rng.choice(same)
+            r2 = rng.random()
+            if r2 < 0.6:
+                n = b.call("einsum", ["...,...->...", B.R(src), B.R(o2)] if rng.random() < 0.5 else ["...,...->...", B.R(o2), B.R(src)], sp="mg", prefix="y")
+            else:
+                ops_ = [B.R(src), B.R(o2)] + ([B.R(rng.choice(same))] if rng.random() < 0.4 else [])
+                n = b.call(rng.choice(["add_sequence", "multiply_sequence"]), ops_, sp="mg", prefix="y")
         else:
             n = GI.s_view(b, src)
         if n:
@@ -94,13 +104,21 @@ def gen_case(rng, cfg, idx):
             b.prog.append({"k": "clear", "tgt": t})
         elif kind == "inplace":
             c = rng.random()
-            (GI.s_setitem(b, t, adv_prob=0.2) if c < 0.6 else GI.s_aug(b, t))
+            if c < 0.5:
+                GI.s_setitem(b, t, adv_prob=0.2)
+            elif c < 0.8:
+                GI.s_aug(b, t)
+            elif GI.s_uout(b, t):
+                # out=<the shared tensor>, sometimes with an explicit constant= (an in-place target keeps its own flag, whatever is asked)
+                if rng.random() < 0.5 and "where" not in b.prog[-1].get("kw", {}):
+                    b.prog[-1].setdefault("kw", {})["constant"] = rng.choice([True, False])
+                    b.prog[-1]["sp"] = "mg"
         elif kind == "reuse":
             b.call(rng.choice(["multiply", "add"]), [B.R(t), round(rng.uniform(2, 5), 1)], sp=rng.choice(["mg", "op"]), prefix="z")
         elif kind == "view":
             GI.s_view(b, t)
     b.prog.append({"k": "backward", "tgt": final, "seed": None})
-    return {"prog": b.prog, "L": final, "rec": rec, "seeded": seeded}
+    return {"prog": b.prog, "L": final, "rec": rec, "seeded": seeded, "reuse_before_retry": rng.random() < 0.3}
 
 
 def upstream_names(env, L):
@@ -208,7 +226,17 @@ def run_case(case):
         outcome = "returned"
     except InvalidBackprop:
         outcome = "InvalidBackprop"
-        # the refusal must be stable: asking again must refuse again (or give exactly the recorded gradients)
+        # the refusal must be stable: asking again must refuse again (or give exactly the recorded gradients) - also when the tensors
+        # whose consumers were cleared are first re-used in new operations (which defeats the detection: known finding, but only
+        # values changed by an in-place update can then leak into the gradients)
+        keep_alive = []
+        if case.get("reuse_before_retry"):
+            for n in sorted(up):
+                t = it.env.get(n)
+                if n != L and mgrun.is_tensor(t) and not t.constant and not any(r() is not None for r in t._ops):
+                    keep_alive.append(t * 1.0)
+                    cnt["reused_before_retry"] = cnt.get("reused_before_retry", 0) + 1
+            defeated = detection_defeated(it.env[L])
         try:
             it.env[L].backward()
             outcome = "returned"
@@ -236,7 +264,10 @@ def run_case(case):
             cnt["grads_compared"] = cnt.get("grads_compared", 0) + 1
             if (g is None) != (g2 is None) or (g is not None and (g.shape != g2.shape or not np.allclose(g, g2, rtol=1e-12, atol=1e-12, equal_nan=True))):
                 viol.append({"monitor": "recorded-gradient", "mech": "silent-wrong-gradient" + (":cleared" if cleared else ":uncleared"),
-                             "defeated": defeated and not cyclic and not cnt.get("returned_on_retry"),
+                             # the known finding needs: detection defeated by re-use, an acyclic graph, and (for a retry) re-use between
+                             # the refusal and the retry. (Cleared parts of the graph are then silently skipped, so missing / partial
+                             # gradients occur even when no value was changed in place.)
+                             "defeated": bool(defeated and not cyclic and (not cnt.get("returned_on_retry") or cnt.get("reused_before_retry"))),
                              "msg": f"final backward returned normally but {n}.grad = {None if g2 is None else g2.ravel()[:4]} while the recorded "
                                     f"computation gives {None if g is None else g.ravel()[:4]}; events {events}"})
                 break
